@@ -1,4 +1,5 @@
 import EpModel.Lemmas.Io
+import EpModel.Model.IoBuild
 import EpModel.Props.C08Link
 import EpModel.Props.C08Net
 /-
@@ -353,6 +354,123 @@ theorem builder_slice {ε : Type} (s : Ser ε) (required : Nat) (buf : Bytes)
   refine ⟨by rw [hd, List.append_nil], ?_, rfl⟩
   rw [hd, List.append_nil, List.length_append, List.length_drop]; omega
 
+/-! ## PacketBuilder: the announced size is the true total -/
+
+section builder
+open EpModel.Io.Build
+
+/-- address lengths of the builder's arguments (`[u8;6]`, `[u8;4]`, `[u8;16]`); IPv4 / IPv6 paths. -/
+def PacketWF (p : Packet) : Prop :=
+  (match p.link with | .none => True | .eth2 s d => s.length = 6 ∧ d.length = 6) ∧
+  (match p.net with
+   | .v4 s d _ => s.length = 4 ∧ d.length = 4
+   | .v6 s d _ => s.length = 16 ∧ d.length = 16
+   | .arp _ => False)
+
+theorem linkParts_len (p : Packet) (wf : PacketWF p) :
+    (linkParts p).flatten.length = linkLen p.link := by
+  obtain ⟨h1, _⟩ := wf
+  unfold linkParts
+  cases hl : p.link with
+  | none => simp [linkLen]
+  | eth2 s d =>
+    rw [hl] at h1
+    simp [Codec.Eth2.toBytes, h1.1, h1.2, linkLen]
+
+theorem vlanParts_len (p : Packet) :
+    (vlanParts p).flatten.length = vlanLen p.vlan := by
+  unfold vlanParts
+  cases p.vlan <;> simp [C08Link.Vlan.toBytes_length, vlanLen]
+
+
+theorem tpBytes_len (tp : Tp) (v6 : Bool) (s d pl t : Bytes) (h : tpBytes tp v6 s d pl = some t) :
+    t.length = tpHeaderLen tp := by
+  cases tp with
+  | none => simp [tpBytes] at h; subst h; rfl
+  | udp sp dp => simp [tpBytes] at h; subst h; simp [C08Link.Udp.toBytes_length, tpHeaderLen]
+  | tcp sp dp seq win =>
+    simp only [tpBytes, Option.some.injEq] at h; subst h
+    rw [C08Link.Tcp.toBytes_eq]
+    simp [C08Link.Tcp.fixed_length, tcpDefault, tpHeaderLen]
+  | icmp4echo id seq => simp [tpBytes] at h; subst h; simp [tpHeaderLen]
+  | icmp6echo id seq =>
+    cases v6 with
+    | false => simp [tpBytes] at h
+    | true => simp [tpBytes] at h; subst h; simp [tpHeaderLen]
+
+theorem tpPart_len (tp : Tp) (t : Bytes) (h : t.length = tpHeaderLen tp) :
+    (tpParts tp t).flatten.length = tpHeaderLen tp := by
+  cases tp <;> simp [tpParts, h] <;> rfl
+
+theorem ipv4_len (h : CodecNet.Ipv4Header) (hs : h.source.length = 4) (hd : h.destination.length = 4)
+    (ho : h.options = []) : h.toBytes.length = 20 := by
+  simp [CodecNet.Ipv4Header.toBytes, CodecNet.Ipv4Header.headerLen, CodecNet.Ipv4Header.optBuf, CodecNet.zeros, hs, hd, ho]
+
+theorem ipv6_len (h : CodecNet.Ipv6Header) (hs : h.source.length = 16) (hd : h.destination.length = 16) :
+    h.toBytes.length = 40 := by
+  simp [CodecNet.Ipv6Header.toBytes, hs, hd]
+
+/-- the size `final_size` announces is the true total of the parts, for every IPv4 / IPv6 packet
+    the builder serialises without a content error. -/
+theorem builder_final_size (p : Packet) (wf : PacketWF p) (hok : (ser p).fin = .ok ()) :
+    (ser p).full.length = finalSize p := by
+  have hl := linkParts_len p wf
+  have hv := vlanParts_len p
+  obtain ⟨_, wn⟩ := wf
+  obtain ⟨link, vlan, net, tp, payload⟩ := p
+  cases net with
+  | arp a => exact absurd wn id
+  | v4 s d ttl =>
+    simp only [ser, Ser.full, finalSize, netLen] at hok hl hv ⊢
+    split at hok
+    · simp at hok
+    · rename_i hval
+      rw [if_neg hval]
+      cases ht : tpBytes tp false s d payload with
+      | none => rw [ht] at hok; simp at hok
+      | some t =>
+        simp only [List.flatten_append, List.length_append, hl, hv, List.flatten_cons,
+          List.flatten_nil, List.append_nil]
+        have h3 := tpPart_len tp t (tpBytes_len _ _ _ _ _ _ ht)
+        rw [ipv4_len _ wn.1 wn.2 rfl]
+        omega
+  | v6 s d hop =>
+    simp only [ser, Ser.full, finalSize, netLen] at hok hl hv ⊢
+    split at hok
+    · simp at hok
+    · rename_i hval
+      rw [if_neg hval]
+      cases ht : tpBytes tp true s d payload with
+      | none => rw [ht] at hok; simp at hok
+      | some t =>
+        simp only [List.flatten_append, List.length_append, hl, hv, List.flatten_cons,
+          List.flatten_nil, List.append_nil]
+        have h3 := tpPart_len tp t (tpBytes_len _ _ _ _ _ _ ht)
+        rw [ipv6_len _ wn.1 wn.2]
+        omega
+
+
+/-- **builder, slice path**, for the modelled IPv4 / IPv6 packets: a buffer shorter than the
+    complete packet gives `Space(required)` with `required` = the length of the complete packet and
+    is left untouched; otherwise the complete packet is in front, the rest untouched, and the call
+    returns the length of the complete packet. -/
+theorem builder_slice_packet (p : Packet) (wf : PacketWF p) (hok : (ser p).fin = .ok ()) (buf : Bytes) :
+    (buf.length < (ser p).full.length →
+      Build.writeToSlice p buf = (buf, .error (.space (ser p).full.length))) ∧
+    ((ser p).full.length ≤ buf.length →
+      (Build.writeToSlice p buf).1 = (ser p).full ++ buf.drop (ser p).full.length ∧
+      (Build.writeToSlice p buf).1.length = buf.length ∧
+      (Build.writeToSlice p buf).2 = .ok (ser p).full.length) := by
+  have hs := builder_final_size p wf hok
+  have := builder_slice (ser p) (finalSize p) buf hs
+  unfold Build.writeToSlice
+  rw [hok] at this
+  rw [← hs] at this
+  rw [← hs]
+  exact this
+
+end builder
+
 /-! ## failing reader -/
 
 /-- **failing reader.**  For every read program `p` (every `read` function is one), every data
@@ -464,6 +582,10 @@ example : sampleIpv4.WF ∧ sampleAuth.WF ∧ (Parts.ipv4raw sampleIpv4).length 
   decide
 
 example : Codec.Eth2.sampleMax.WF ∧ Codec.Sll.sampleMax.WF := by decide
+
+example : PacketWF { link := .eth2 [1, 2, 3, 4, 5, 6] [7, 8, 9, 10, 11, 12], vlan := .single 5,
+                     net := .v4 [10, 0, 0, 1] [10, 0, 0, 2] 64, tp := .udp 1 2, payload := [1, 2, 3] } := by
+  simp [PacketWF]
 
 example : (CodecNet.Ipv4Extensions.WF { auth := some sampleAuth } sampleIpv4.protocol) := by decide
 
